@@ -50,6 +50,9 @@ def run(ctx):
     # recorded schedule) and schedule independence is a theorem (C03_ground_schedule_independent)
     import ground_util
     gerr = ground_util.guarded(ctx, "sched", 200, 6000)
+    import groundfo_util           # the same on programs WITH variables (first-order model, exact correspondence)
+    gerr2 = groundfo_util.guarded(ctx, "sched", 150, 5000)
+    gerr = gerr or gerr2
     rc = cfgprop.run(ctx, MODULE, THEOREMS, variants, nq=50, nt=700, level="other", gen_kwargs={"disjunction": True},
                      explanation="Schedules are explored (seeded), not proved, on general programs; every schedule is compared "
                                  "with the Lean specification. On ground programs without recursion the engine is modelled "
